@@ -274,6 +274,34 @@ def _r03g(rep):
                  f"the reciprocal lattice handed to the kernels is typed {frames.show(t)}, not {frames.show(want)}: the kernels read the reciprocal basis vectors from the columns", line=el.lineno)
 
 
+def _r03h(rep):
+    """Moving q-points into the first Brillouin zone keeps them equivalent: the change of basis and its inverse (frame typing)."""
+    from engine import frames
+    from engine.frames import C as CART, L as LAT, U as UNK
+    from rules.c04 import SIGS
+
+    rep.rule("R03h", "BrillouinZone: q-points are taken to the coordinates of the reduced reciprocal basis, shifted by integer vectors there, and taken back with the inverse change of basis (frame typing of every product: reciprocal basis in columns (Cartesian, L(q)-), reduced basis in rows (L(r)-, Cartesian), q components L(q)+): a back-transform with the transpose instead of the inverse adds a vector that is not a reciprocal lattice vector, so the returned points are not equivalent to q", 2)
+    BZ = "phonopy/structure/brillouin_zone.py"
+    init = core.find_def(BZ, "BrillouinZone.__init__")
+    runf = core.find_def(BZ, "BrillouinZone.run")
+    rpar = init.args.args[1].arg
+    ty0 = frames.Typer(init, seeds={}, params={rpar: (CART, LAT("q", "-"))}, call_sigs=SIGS, where=f"{BZ}::BrillouinZone.__init__")
+    problems = list(ty0.run())
+    seeds = {k: v for k, v in ty0.env.items() if k.startswith("self.") and v is not None}
+    seeds["search_space"] = (UNK, LAT("r", "+"))
+    qpar = runf.args.args[1].arg
+    ty1 = frames.Typer(runf, seeds=seeds, params={qpar: (UNK, LAT("q", "+"))}, call_sigs=SIGS, where=f"{BZ}::BrillouinZone.run")
+    problems += list(ty1.run())
+    n = ty0.n_typed + ty1.n_typed
+    if not problems and n < 3:
+        raise AnalysisError(f"R03h: only {n} products typed in BrillouinZone (change of basis, forward and back transform expected)")
+    rep.instance("R03h", BZ, "BrillouinZone.__init__", f"{ty0.n_typed} product(s) typed: change of basis between the reciprocal and the reduced basis", not [p_ for p_ in problems if any(p_.node is x for x in ast.walk(init))],
+                 next((p_.message for p_ in problems if any(p_.node is x for x in ast.walk(init))), "") + ": the matrix between q components and reduced components is not built from the two bases consistently", line=init.lineno)
+    bad_run = [p_ for p_ in problems if any(p_.node is x for x in ast.walk(runf))]
+    rep.instance("R03h", BZ, "BrillouinZone.run", f"{ty1.n_typed} product(s) typed: forward transform, lengths in the reduced basis, back transform", not bad_run,
+                 (bad_run[0].message if bad_run else "") + ": the points returned as equivalents of q differ from q by a vector that is not a reciprocal lattice vector unless the change of basis is a signed permutation (cubic, hexagonal and simple orthogonal cells); D there has another spectrum", line=getattr(bad_run[0].node, "lineno", runf.lineno) if bad_run else runf.lineno)
+
+
 _run_main = run
 
 
@@ -286,11 +314,13 @@ def run(rep: core.Report):
 
     c13.tolerance_degree(rep, "R03f")
     _r03g(rep)
+    _r03h(rep)
 
 
 def selftest():
     V = []
     b = lambda name, file, old, new, rule, expect="", **kw: V.append(dict(name=name, kind="break", file=file, old=old, new=new, rule=rule, expect=expect, **kw))
+    b("Brillouin-zone back transform with the transpose of the forward map", "phonopy/structure/brillouin_zone.py", "        reduced_qpoints = np.dot(qpoints, self._tmat_inv.T)", "        reduced_qpoints = np.dot(qpoints, self._tmat)", "R03h", "BrillouinZone.run")
     b("reciprocal lattice handed to the kernels as rows", PYDM, "np.linalg.inv(dm.primitive.cell), dtype=\"double\", order=\"C\")", "np.linalg.inv(dm.primitive.cell.T), dtype=\"double\", order=\"C\")", "R03g", "_extract_params")
     b("make_Hermitian only on the serial arm", DYN, "                              i, j);\n            }\n        }\n    }\n\n    make_Hermitian(dynamical_matrix, num_patom * 3);", "                              i, j);\n            }\n        }\n        make_Hermitian(dynamical_matrix, num_patom * 3);\n    }\n", "R03a", "dym_get_dynamical_matrix_at_q")
     b("imaginary part added instead of subtracted", DYN, "            mat[adrs][1] -= mat[adrsT][1];", "            mat[adrs][1] += mat[adrsT][1];", "R03b", "mat[adrs][1]")
